@@ -282,4 +282,137 @@ theorem Core.bit {V : St → List Val} {s s' : St} {cs : List Nat} (hc : Core V 
       rw [hvw] at this
       exact this
 
+theorem buildBitmapped_eq (s : St) (bm : List Val) :
+    buildBitmapped s bm =
+      (if (brFor s bm.length).length ≠ bm.length then .error .lib
+       else .ok (s.setRegs fun r => { r with backRefs := some (brFor s bm.length),
+                                             bitmapped := some (zeroSel bm (brFor s bm.length)),
+                                             bmIter := some (zeroSel bm (brFor s bm.length)) })) := rfl
+
+theorem slastN_length_le (k : Nat) (l : List Val) (h : (Spec.lastN k l).length = k) : k ≤ l.length := by
+  unfold Spec.lastN at h
+  rw [List.length_drop] at h
+  omega
+
+/-- the back references collected afresh are the last `k` plain items in front of the boundary, as the
+    specification counts them -/
+theorem collect_eq_plainBelow (V : St → List Val) (s : St) (hl : (V s).length = s.descs.length) (k : Nat) (hk : 1 ≤ k)
+    (hb : s.regs.backBoundary ≤ s.descs.length) :
+    collectBackRefs k (s.descs.drop (s.descs.length - s.regs.backBoundary)) s.regs.backBoundary [] =
+      Spec.lastN k (plainBelow (items V s) s.regs.backBoundary) := by
+  rw [collect_lastN k _ _ [] (by simp only [List.length_nil]; omega)]
+  have hlen : (s.descs.drop (s.descs.length - s.regs.backBoundary)).length = s.regs.backBoundary := by
+    rw [List.length_drop]; omega
+  rw [plainRev_eq_plainFrom _ _ (by rw [hlen]; exact Nat.le_refl _), hlen]
+  have hr : (s.descs.drop (s.descs.length - s.regs.backBoundary)).reverse = s.descs.reverse.take s.regs.backBoundary := by
+    rw [List.reverse_drop]; congr 1; omega
+  rw [hr]
+  unfold items
+  rw [plainBelow_zip _ _ (by simp [hl]) _ (by simp; exact hb)]
+  simp only [List.length_nil, Nat.sub_zero, Nat.sub_self, List.append_nil]
+  rfl
+
+/-- the run of 031031 is over and the next member makes the walk build the selection -/
+theorem Core.build {P : Prims} {V : St → List Val} (hR : Rec P V) {s sb : St} {cs : List Nat} (hc : Core V s cs)
+    (hcnt : s.regs.bitmapDef = .counting) (bm : List Val) (hbm : P.lastValues s.regs.n031031 s = .ok bm)
+    (hb : buildBitmapped s bm = .ok sb) :
+    Core V (sb.setRegs fun r => { r with bitmapDef := .na }) cs := by
+  have hp := hc.phase
+  unfold PhaseRel at hp
+  rw [hcnt] at hp
+  obtain ⟨r, bits, hph, hn, hne, hlast, hwin⟩ := hp
+  have hk : 1 ≤ bits.length := by cases bits with | nil => exact absurd rfl hne | cons _ _ => simp
+  have hkl : bits.length ≤ (V s).length := slastN_length_le _ _ (by rw [hlast])
+  have hbits : bm = bits := by
+    rw [hn] at hbm
+    rw [hR.lastValues _ _ _ hbm hk hkl, hlast]
+  subst hbits
+  have hs := hc.sinv
+  have hbb : s.regs.backBoundary < s.descs.length := by
+    rw [← items_length V s hc.len]
+    exact SInv.ph_lt hs _ (Or.inr (Or.inr ⟨r, bm, hph⟩))
+  have hnc : cs.contains s.descs.length = false := by
+    cases hcc : cs.contains s.descs.length with
+    | false => rfl
+    | true => have := hwin _ (by simpa using hcc); omega
+  have hvw : vw s (foldItems cs (items V s)) = foldItems cs (items V s) := vw_of_counting _ _ hcnt
+  have hest : estV s cs (foldItems cs (items V s)) = (foldItems cs (items V s)).est := by
+    unfold estV; rw [hnc, hvw]; simp
+  have hbelow := hs.run_below _ _ _ hph
+  -- the back references the walk uses are the candidates of the fold
+  have hbr : brFor s bm.length = newCands (foldItems cs (items V s)).est bm (foldItems cs (items V s)).below := by
+    unfold brFor newCands
+    rcases hc.regs.backRefs with ⟨h1, h2⟩ | ⟨br, hbrne, h1, h2⟩
+    · rw [hest] at h2
+      rw [h1, h2]
+      simp only
+      rw [collect_eq_plainBelow V s hc.len _ hk (by omega), hbelow]
+    · rw [hest] at h2
+      rw [h1, h2]
+      cases br with
+      | nil => exact absurd rfl hbrne
+      | cons x xs => rfl
+  rw [buildBitmapped_eq] at hb
+  split at hb
+  · cases hb
+  · next hlen =>
+    have hlen' : (brFor s bm.length).length = bm.length := by simpa using hlen
+    injection hb with hb
+    subst hb
+    have hfin := finalize_run _ _ _ _ hph
+    -- the new state: same items, registers of the finalized fold state
+    have hi : ∀ f g : Regs → Regs, items V ((s.setRegs f).setRegs g) = items V s :=
+      fun f g => items_congr V _ _ rfl (by rw [hR.setRegs, hR.setRegs])
+    have hvw' : ∀ s2 : St, s2.regs.bitmapDef = .na →
+        vw s2 (foldItems cs (items V s)) = finalize (foldItems cs (items V s)) :=
+      fun s2 h2 => vw_of_not_counting _ _ (by rw [h2]; exact fun x => nomatch x)
+    refine ⟨by rw [hR.setRegs, hR.setRegs]; exact hc.len, ?_, ?_, hc.quiet, hc.cs_le, ?_, ?_⟩
+    · rw [hi]; exact hc.links
+    · rw [hi]; exact hc.qa
+    · rw [hi]
+      unfold PhaseRel
+      show (foldItems cs (items V s)).ph = .idle ∨ ∃ p r bits, (foldItems cs (items V s)).ph = .run p r bits
+      exact Or.inr ⟨_, _, _, hph⟩
+    · rw [hi]
+      have hne' : brFor s bm.length ≠ [] := by
+        intro h0; rw [h0] at hlen'; simp at hlen'; omega
+      refine ⟨Or.inr ⟨brFor s bm.length, hne', rfl, ?_⟩, Or.inr ?_, ?_⟩
+      · unfold estV
+        show (if cs.contains s.descs.length then none else _) = _
+        rw [hnc, hvw' _ rfl, hfin, hbr]
+        rfl
+      · show some (zeroSel bm (brFor s bm.length)) = _
+        rw [hvw' _ rfl, hfin, hbr]
+        rfl
+      · show (some (zeroSel bm (brFor s bm.length))).getD [] = _
+        rw [hvw' _ rfl, hfin, hbr]
+        rfl
+
+/-- 235000: the back references and the recallable selection are forgotten; the time is added to the cancel times -/
+theorem Core.cancel {V : St → List Val} (hS : ∀ s f, V (s.setRegs f) = V s) {s : St} {cs : List Nat} (hc : Core V s cs)
+    (hst : s.regs.bitmapDef = .na ∨ s.regs.bitmapDef = .waiting) :
+    Core V (s.setRegs fun r => { r with backRefs := none, bitmapped := none }) (cs ++ [s.descs.length]) := by
+  have hi : items V (s.setRegs fun r => { r with backRefs := none, bitmapped := none }) = items V s :=
+    items_congr V _ _ rfl (hS _ _)
+  have hf : foldItems (cs ++ [s.descs.length]) (items V s) = foldItems cs (items V s) :=
+    foldItems_cancel_end cs _ _ (by rw [items_length V s hc.len]; exact Nat.le_refl _)
+  refine ⟨by rw [hS]; exact hc.len, ?_, ?_, hc.quiet, ?_, ?_, ?_⟩
+  · rw [hi, hf]; exact hc.links
+  · rw [hi, hf]; exact hc.qa
+  · intro c hcm
+    rcases List.mem_append.mp hcm with h | h
+    · exact hc.cs_le c h
+    · simp only [List.mem_singleton] at h; subst h; exact Nat.le_refl _
+  · rw [hi, hf]
+    have hp := hc.phase
+    unfold PhaseRel at hp ⊢
+    show (match s.regs.bitmapDef with | .na => _ | .indicator => _ | .waiting => _ | .counting => _)
+    rcases hst with h | h <;> (rw [h] at hp ⊢; exact hp)
+  · rw [hi, hf]
+    refine ⟨Or.inl ⟨rfl, ?_⟩, Or.inl rfl, hc.regs.iter⟩
+    unfold estV
+    show (if (cs ++ [s.descs.length]).contains s.descs.length then none else _) = none
+    have : (cs ++ [s.descs.length]).contains s.descs.length = true := by simp
+    rw [this]; rfl
+
 end Bufr.C07
